@@ -45,6 +45,7 @@
 package symx // import "golang.org/x/tools/go/ssa/interp"
 
 import (
+	"runtime/debug"
 	"fmt"
 	"go/token"
 	"go/types"
@@ -139,7 +140,10 @@ func (fr *frame) get(key ssa.Value) value {
 	if r, ok := fr.env[key]; ok {
 		return r
 	}
-	panic(fmt.Sprintf("get: no value for %T: %v", key, key.Name()))
+	if os.Getenv("VERIF_DEBUG") != "" {
+		debug.PrintStack()
+	}
+	panic(enginePanic{fmt.Sprintf("get: no value for %T: %v in %s", key, key.Name(), fr.fn)})
 }
 
 // runDefer runs a deferred call d.
